@@ -15,7 +15,10 @@ out = {}
 try:
     for pid in pids:
         t = time.time()
-        p = subprocess.run([os.path.join(VERIF, "check"), pid, "--tier", tier], capture_output=True, text=True)
+        cmd = [os.path.join(VERIF, "check"), pid, "--tier", tier]
+        if os.environ.get("SEED_NO_COQ"):
+            cmd.append("--no-coq")      # regression runs over all stored changes: the Coq step does not depend on /repo
+        p = subprocess.run(cmd, capture_output=True, text=True)
         lines = [l for l in p.stdout.splitlines() if l.startswith("VIOLATION") or l.startswith("check ")]
         out[pid] = dict(exit=p.returncode, lines=lines[:4], seconds=round(time.time() - t, 1))
         print(pid, "exit", p.returncode, *lines[:3], sep="\n   ")
